@@ -789,6 +789,8 @@ def lockstep(ops, ctx, nproj=2, check_handles=True, stop_at_first=True):
     tainted = set()    # handles inside a known-finding class (see known_class in the plug-ins)
     doc_touched = set()  # handles whose document object has been created
     doc_tainted = set()  # ... and whose job directory vanished and was re-created meanwhile (F-5c)
+    doc_obj = {}         # handle -> identity of its document OBJECT (shallow copies made afterwards share it)
+    doc_clean = set()    # handles whose document object was emptied by the very remove() that made them stale
     records, failures = [], []
     ever = [set() for _ in range(nproj)]   # ids that existed in project p at some point of the history
     prev_obs = rw.observe()
@@ -808,7 +810,7 @@ def lockstep(ops, ctx, nproj=2, check_handles=True, stop_at_first=True):
                 continue
             k = op[0]
             if k in ("dset", "ddel", "dclear", "dreset", "clear", "reset") and (
-                    op[1] in doc_tainted or (op[1] in stale and op[1] in doc_touched)):
+                    op[1] in doc_tainted or (op[1] in stale and op[1] in doc_touched and op[1] not in doc_clean)):
                 failures.append("KNOWN[F-5c] step %d %s: %s" % (i, json.dumps(op), KNOWN_TEXT["F-5c"]))
                 records.append({"op": op, "skipped": "doc-tainted-handle"})
                 continue
@@ -816,6 +818,7 @@ def lockstep(ops, ctx, nproj=2, check_handles=True, stop_at_first=True):
             pre = copy.deepcopy(pm.h.get(op[1])) if k not in ("open", "openid", "ucache", "rmcache", "session", "plant", "drop") else None
             if k in ("dset", "ddel", "dclear", "dreset", "clear", "reset"):
                 doc_touched.add(op[1])  # even a refused document operation leaves data in the document object
+                doc_obj.setdefault(op[1], len(doc_obj) + 1000 * i)
             if k in ("spassign", "update") and op[1] in rw.lazy and pre is not None:
                 # A whole assignment as the FIRST state point access replaces an empty collection, so it is
                 # exact; through a loaded handle the dependency keeps ==-equal values (finding F-4b).  Where
@@ -902,6 +905,11 @@ def lockstep(ops, ctx, nproj=2, check_handles=True, stop_at_first=True):
                 for name, hd in pm.h.items():
                     if name != op[1] and (hd["g"] != pre["g"] or k == "remove") and (hd["p"], ref_id(hd["sp"])) == old:
                         stale.add(name)
+                        doc_clean.discard(name)
+                        if k == "remove" and doc_obj.get(op[1]) is not None and doc_obj.get(name) == doc_obj[op[1]]:
+                            # remove() empties the document object of the removing handle; a shallow copy that
+                            # shares that object holds no stale data (outside the class of F-5c)
+                            doc_clean.add(name)
                 cur = pm.h.get(op[1])
                 if cur is not None and (cur["p"], ref_id(cur["sp"])) != old:
                     # peers of the group that did not follow a move are stale as well
@@ -909,7 +917,7 @@ def lockstep(ops, ctx, nproj=2, check_handles=True, stop_at_first=True):
                         if name != op[1] and (hd["p"], ref_id(hd["sp"])) == old:
                             stale.add(name)
             if k in ("init", "dset", "dreset", "dclear", "put", "putlink", "reset") and real.startswith("ok"):
-                if op[1] in stale and op[1] in doc_touched:
+                if op[1] in stale and op[1] in doc_touched and op[1] not in doc_clean:
                     doc_tainted.add(op[1])
                 stale.discard(op[1])
             if k in ("dset", "ddel", "dclear", "dreset", "clear", "reset"):
@@ -917,6 +925,8 @@ def lockstep(ops, ctx, nproj=2, check_handles=True, stop_at_first=True):
             if k in ("copy", "deepcopy", "pickle", "pickleproc") and real.startswith("ok"):
                 if op[1] in doc_touched:
                     doc_touched.add(op[2])
+                if k == "copy" and op[1] in doc_obj:
+                    doc_obj[op[2]] = doc_obj[op[1]]     # a shallow copy shares the document object
                 if op[1] in doc_tainted:
                     doc_tainted.add(op[2])
             if k in ("copy", "deepcopy", "pickle", "pickleproc") and op[1] in stale and real.startswith("ok"):
